@@ -72,7 +72,9 @@ CHECKS = {
         "parts": {
             "quick": [dict(harness="c06_parallel", variant="plain", runs=20000, tl=120),
                       # data races between iterations of the OpenMP loop: real threads under ThreadSanitizer, single inline rank
-                      dict(harness="c06_omp_tsan", variant="tsan", runs=480, tl=60)],
+                      dict(harness="c06_omp_tsan", variant="tsan", runs=480, tl=60),
+                      # the other documented build flavour: complex matrix elements (hoppings carry a phase in this build)
+                      dict(harness="c06_parallel", variant="plain", complex=True, runs=4000, tl=60)],
             "thorough": [dict(harness="c06_parallel", variant="plain", runs=400000, tl=1500, cfg="big=1"),
                          dict(harness="c06_parallel", variant="san", runs=40000, tl=500),
                          dict(harness="c06_parallel", variant="plain", complex=True, runs=40000, tl=400, cfg="big=1"),
